@@ -507,7 +507,26 @@ int main(int argc, char** argv) {
             if (!okc) { BFAIL("crypt: result is not the masked seed with the flag toggled and the check value recomputed"); continue; }
             polyseed_crypt(&c, "password");
             if (memcmp(&c, &s, sizeof s)) BFAIL("crypt twice with the same mask does not restore the seed");
-            if (d_live != 0 || d_foreign_free) { BFAIL("allocator ledger: block leaked or foreign/double free"); d_live = 0; }
+            if (d_live != 0 || d_foreign_free) { BFAIL("allocator ledger: block leaked or foreign/double free"); d_live = 0; d_foreign_free = 0; }
+            /* failure paths: wrong coin, reserved feature bits, failing allocator -- status and allocator ledger */
+            back = NULL; st = polyseed_decode_explicit(out, coin ^ (1u + RND() % 2047u), l, &back);
+            if (st != POLYSEED_ERR_CHECKSUM || back || d_live) { BFAIL("a phrase decoded for another coin is not rejected with the checksum status"); if (back) polyseed_free(back); d_live = 0; }
+            polyseed_data u = s; u.features = 1u + RND() % 7u; u.checksum = spec_check(&u);
+            if (!spec_supported(u.features, reserved_features)) {
+                polyseed_str uo; polyseed_encode(&u, l, coin, uo);
+                unsigned f0 = d_free_calls; d_free_zero = 1; back = NULL;
+                st = polyseed_decode_explicit(uo, coin, l, &back);
+                if (st != POLYSEED_ERR_UNSUPPORTED || back || d_live || d_foreign_free || d_free_calls != f0 + 1 || !d_free_zero) { BFAIL("decode of a seed with a reserved feature bit: not UNSUPPORTED, or the block is not wiped and freed exactly once"); d_live = 0; d_foreign_free = 0; }
+                polyseed_storage ub; polyseed_store(&u, ub); f0 = d_free_calls; d_free_zero = 1; back = NULL;
+                st = polyseed_load(ub, &back);
+                if (st != POLYSEED_ERR_UNSUPPORTED || back || d_live || d_foreign_free || d_free_calls != f0 + 1 || !d_free_zero) { BFAIL("load of a seed with a reserved feature bit: not UNSUPPORTED, or the block is not wiped and freed exactly once"); d_live = 0; d_foreign_free = 0; }
+            }
+            d_alloc_fail = 1; back = NULL;
+            st = polyseed_decode_explicit(out, coin, l, &back);
+            if (st != POLYSEED_ERR_MEMORY || back) BFAIL("decode with a failing allocator does not return the memory status");
+            back = NULL; st = polyseed_load(buf, &back);
+            if (st != POLYSEED_ERR_MEMORY || back) BFAIL("load with a failing allocator does not return the memory status");
+            d_alloc_fail = 0;
         }
         printf("%lu random seeds tried\n", n_);
     } else if (!strcmp(cmd, "encode_worst") && argc == 5) {
